@@ -571,8 +571,10 @@ func (r *pRun) step(i int, st pStep) bool {
 			if err := setWinsize(r.ptyM, st.W, st.H); err != nil {
 				h.addErr("step %d: TIOCSWINSZ: %v", i, err)
 			}
-			if err := syscall.Kill(os.Getpid(), syscall.SIGWINCH); err != nil {
-				h.addErr("step %d: kill: %v", i, err)
+			if !st.Silent {
+				if err := syscall.Kill(os.Getpid(), syscall.SIGWINCH); err != nil {
+					h.addErr("step %d: kill: %v", i, err)
+				}
 			}
 		}
 	case "signal":
